@@ -1139,6 +1139,11 @@ class SessionTransaction(_StateChange, TransactionalContext):
         for s in self.session.identity_map.all_states():
             if not dirty_only or s.modified or s in self._dirty:
                 s._expire(s.dict, self.session.identity_map._modified)
+            elif "parents" in s.__dict__:
+                # an object left loaded by a SAVEPOINT rollback must not
+                # keep orphan tracking gathered from collection changes
+                # that the rollback just discarded
+                del s.__dict__["parents"]
 
     def _remove_snapshot(self) -> None:
         """Remove the restoration state taken before a transaction began.
